@@ -40,6 +40,14 @@ Fixpoint minlevel (e : expr) : option nat :=
           else None
       | None => None
       end
+  | EIsNull p _ l => if Z.eqb p 0 && le_opt (minlevel l) 8 then Some 9 else None
+  | EIsBool p _ l _ => if Z.eqb p 0 && le_opt (minlevel l) 8 then Some 9 else None
+  | EBetween _ l s x => if le_opt (minlevel l) 8 && le_opt (minlevel s) 8 && le_opt (minlevel x) 8 then Some 9 else None
+  | EIn _ l (CUnnest u rp x) => if Z.eqb u 0 && Z.eqb rp 0 && le_opt (minlevel l) 8 && le_opt (minlevel x) 12 then Some 9 else None
+  | EIn _ l (CValues lp rp (e1 :: es)) =>
+      if Z.eqb lp 0 && Z.eqb rp 0 && le_opt (minlevel l) 8 && le_opt (minlevel e1) 12 &&
+         (fix all (r : list expr) : bool := match r with [] => true | x :: r' => le_opt (minlevel x) 12 && all r' end) es
+      then Some 9 else None
   | _ => None
   end.
 
@@ -101,6 +109,34 @@ Proof.
       * apply orb_true_iff in OS as [OS | OS]; [apply orb_true_iff in OS as [OS | OS]|]; apply bytes_eqb_eq in OS; auto.
       * eapply CUp; eauto.
       * apply orb_true_iff in B2 as [B2 | B2]; [left; apply bytes_eqb_eq, B2|right; apply negb_true_iff, B2].
+  - (* IN UNNEST *)
+    destruct c as [lp rp es|u rp x].
+    { destruct es as [|e1 es]; [discriminate|].
+      match type of H with (if ?c then _ else _) = _ => destruct c eqn:B end; [|discriminate]. inversion H; subst k.
+      apply andb_true_iff in B as [B B5]. apply andb_true_iff in B as [B B4]. apply andb_true_iff in B as [B B3]. apply andb_true_iff in B as [Z1 Z2].
+      apply zeqb0 in Z1, Z2. subst.
+      destruct (le_opt_ok _ _ B3) as (k1 & M1 & L1). destruct (le_opt_ok _ _ B4) as (k2 & M2 & L2).
+      apply CInValues; [eapply CUp; eauto|eapply CUp; eauto|].
+      clear -IH B5. induction es as [|x r IHr]; [constructor|].
+      apply andb_true_iff in B5 as [Bx Br]. destruct (le_opt_ok _ _ Bx) as (kx & Mx & Lx).
+      constructor; [eapply CUp; [apply IH, Mx|exact Lx]|apply IHr, Br]. }
+    match type of H with (if ?c then _ else _) = _ => destruct c eqn:B end; [|discriminate]. inversion H; subst k.
+    apply andb_true_iff in B as [B B3]. apply andb_true_iff in B as [B B2]. apply andb_true_iff in B as [Z1 Z2]. apply zeqb0 in Z1, Z2. subst.
+    destruct (le_opt_ok _ _ B2) as (k1 & M1 & L1). destruct (le_opt_ok _ _ B3) as (k2 & M2 & L2).
+    apply CInUnnest; eapply CUp; eauto.
+  - (* IS NULL *)
+    match type of H with (if ?c then _ else _) = _ => destruct c eqn:B end; [|discriminate]. inversion H; subst k.
+    apply andb_true_iff in B as [Z1 B1]. apply zeqb0 in Z1. subst. destruct (le_opt_ok _ _ B1) as (k1 & M1 & L1).
+    apply CIsNull. eapply CUp; eauto.
+  - (* IS TRUE / FALSE *)
+    match type of H with (if ?c then _ else _) = _ => destruct c eqn:B end; [|discriminate]. inversion H; subst k.
+    apply andb_true_iff in B as [Z1 B1]. apply zeqb0 in Z1. subst. destruct (le_opt_ok _ _ B1) as (k1 & M1 & L1).
+    apply CIsBool. eapply CUp; eauto.
+  - (* BETWEEN *)
+    match type of H with (if ?c then _ else _) = _ => destruct c eqn:B end; [|discriminate]. inversion H; subst k.
+    apply andb_true_iff in B as [B B3]. apply andb_true_iff in B as [B1 B2].
+    destruct (le_opt_ok _ _ B1) as (k1 & M1 & L1). destruct (le_opt_ok _ _ B2) as (k2 & M2 & L2). destruct (le_opt_ok _ _ B3) as (k3 & M3 & L3).
+    apply CBetween; eapply CUp; eauto.
   - (* paren *)
     match type of H with (if ?c then _ else _) = _ => destruct c eqn:B end; [|discriminate]. inversion H; subst k.
     apply andb_true_iff in B as [B B2]. apply andb_true_iff in B as [Z1 Z2]. apply zeqb0 in Z1, Z2. subst.
